@@ -1,6 +1,7 @@
 import XcpProofs.Perm
 import XcpProofs.L0Fs
 import XcpProofs.MirrorConc
+import XcpProofs.OverlayConc
 import XcpProofs.PoolInv
 import XcpProofs.ParfileInv
 import XcpProps.C01
@@ -40,8 +41,10 @@ count / queue capacity:
   The hand-over hypothesis is DISCHARGED for a fresh target (`fresh_destination_any_interleaving`): there no interleaving
   can make an operation fail and every complete run ends with exactly the source tree at the target.
 
-What is NOT proved: that the walker establishes `GoodAll` at every hand-over for destinations that already exist
-(merged directories, several sources), and the bridge from the real thread structure to `Xcp.L0` (transcribed from the source); both
+  Likewise for an EXISTING compatible destination (`existing_destination_any_interleaving`).
+
+What is NOT proved: that the walker establishes `GoodAll` at every hand-over across SEVERAL sources of one run (their
+operations interleave too; with one base name twice this is finding F10) or for incompatible destinations, and the bridge from the real thread structure to `Xcp.L0` (transcribed from the source); both
 are checked on every real run instead (per-target call order by the monitor, mkdir-before-children and
 equality of end states across schedules, worker counts and drivers, and against `L1run`).  Two recorded findings show where the
 statement itself fails on the unchanged code: two sources mapping onto one target (F10) and the partial state
@@ -151,6 +154,26 @@ theorem fresh_destination_any_interleaving (fs : Fs) (c : Cfg) (hd : c.dereferen
     (L0.final s = true → FsEq s.fs { fs with root := fs.root.setAt tb.names srcNode }) := by
   have hok := mirror_fresh_never_fails fs c hd hn src tb srcNode fuel hwf hroot hsrc hsn hcop htb hne habs hpar hun1 hun2 hlen ls s hrun
   exact ⟨hok, fun hfin => mirror_fresh_concurrent fs c hd hn src tb srcNode fuel hwf hroot hsrc hsn hcop htb hne habs hpar hun1 hun2 hlen ls s hrun hfin hok⟩
+
+/-- … and for an EXISTING destination that is position-wise `Compatible` with the source (a re-run of the same copy, a
+destination directory with other entries; symbolic links may sit under names the source does not list): no interleaving
+can make an operation fail, and every complete run ends with the destination OVERLAID with the source tree -/
+theorem existing_destination_any_interleaving (fs : Fs) (c : Cfg) (hd : c.dereference = false) (hn : c.noClobber = false)
+    (src tb : RPath) (srcNode : Node) (fuel : Nat)
+    (hwf : FsEq fs fs) (hroot : fs.root.isDir = true)
+    (hsrc : PlainTarget fs src) (hsn : fs.root.getAt src.names = some srcNode)
+    (hcop : srcNode.Copyable fuel)
+    (htb : PlainTarget fs tb) (hne : tb.names ≠ [])
+    (hcompat : Compatible (fs.root.getAt tb.names) srcNode)
+    (hpar : ∃ es, fs.root.getAt tb.names.dropLast = some (.dir es))
+    (hun1 : ¬ src.names <+: tb.names) (hun2 : ¬ tb.names <+: src.names)
+    (hlen : src.names.length + fuel < 200 ∧ tb.names.length + fuel < 200)
+    (ls : List L0.Label) (s : L0.St)
+    (hrun : L0.run c (L0.init fs (walkEntry fs c none src tb (fuel + 1) [] [])) ls = some s) :
+    s.failed = false ∧
+    (L0.final s = true →
+      FsEq s.fs { fs with root := fs.root.setAt tb.names (Node.overlay (fs.root.getAt tb.names) srcNode) }) :=
+  overlay_concurrent_ok fs c hd hn src tb srcNode fuel hwf hroot hsrc hsn hcop htb hne hcompat hpar hun1 hun2 hlen ls s hrun
 
 /-- the totals of the update stream of a failure-free run are the same on every schedule -/
 theorem update_totals_schedule_independent (files : List Nat) (s1 s2 : Status.St)
